@@ -122,6 +122,7 @@ type Sys struct {
 	Downs                     []*downH
 	Enc                       iscp.EncodingName
 	PingInterval, PingTimeout time.Duration
+	ScribbleReads             bool // the application edits every chunk ReadDataPoints gave it (after copying it)
 	TokenCalls                int
 	TokenFail                 int // next n Token() calls fail
 	Tokens                    []string
@@ -586,10 +587,71 @@ func (y *Sys) readOp(h *downH) *Op {
 		if err != nil {
 			return nil, err
 		}
+		if y.ScribbleReads && c != nil {
+			// the application keeps a copy and then edits what it was given (it owns the returned
+			// value); later reads must not be affected by that
+			kept := copyDownChunk(c)
+			scribbleDownChunk(c)
+			y.s.Stat("env.returned-chunk-edited-by-application")
+			return kept, nil
+		}
 		return c, nil
 	}}
 	h.Reads = append(h.Reads, op)
 	return op
+}
+
+func copyDownChunk(c *iscp.DownstreamChunk) *iscp.DownstreamChunk {
+	k := &iscp.DownstreamChunk{SequenceNumber: c.SequenceNumber}
+	if c.UpstreamInfo != nil {
+		u := *c.UpstreamInfo
+		k.UpstreamInfo = &u
+	}
+	for _, g := range c.DataPointGroups {
+		if g == nil {
+			k.DataPointGroups = append(k.DataPointGroups, nil)
+			continue
+		}
+		ng := &iscp.DataPointGroup{}
+		if g.DataID != nil {
+			id := *g.DataID
+			ng.DataID = &id
+		}
+		for _, p := range g.DataPoints {
+			if p == nil {
+				ng.DataPoints = append(ng.DataPoints, nil)
+				continue
+			}
+			ng.DataPoints = append(ng.DataPoints, &message.DataPoint{ElapsedTime: p.ElapsedTime, Payload: append([]byte(nil), p.Payload...)})
+		}
+		k.DataPointGroups = append(k.DataPointGroups, ng)
+	}
+	return k
+}
+
+func scribbleDownChunk(c *iscp.DownstreamChunk) {
+	if c.UpstreamInfo != nil {
+		c.UpstreamInfo.SessionID = "edited-by-application"
+		c.UpstreamInfo.SourceNodeID = "edited-by-application"
+		c.UpstreamInfo.StreamID = uuid.UUID{}
+	}
+	for _, g := range c.DataPointGroups {
+		if g == nil {
+			continue
+		}
+		if g.DataID != nil {
+			g.DataID.Name = "edited/" + g.DataID.Name
+			g.DataID.Type = "edited"
+		}
+		for _, p := range g.DataPoints {
+			if p != nil {
+				p.ElapsedTime = -1
+				for i := range p.Payload {
+					p.Payload[i] = '#'
+				}
+			}
+		}
+	}
 }
 
 func (y *Sys) readMetaOp(h *downH) *Op {
